@@ -33,7 +33,7 @@ import (
 // the Go race detector evaluated on the simulated interleaving (race build).
 
 var concFaults = []string{"preempt", "lock-contended", "curve-first-use", "close-during-write", "rotation-during-handshake", "pct-schedule", "dense-preemption", "transport-write-blocks", "peer-transport-abort"}
-var concReach = []string{"block-shared", "pkg-sign", "pkg-encrypt", "pkg-hash", "pkg-sm4", "pkg-parse", "pkg-pkcs7-ber", "pkg-verify-chain", "pkg-sm4-modes", "pkg-key-codec", "pkg-create-cert", "pkg-pkcs12", "pkg-key-exchange", "cache-linearizable", "cache-eviction", "pool-verify", "pool-verify-rejecting", "conn-linearizable", "conn-close-raced", "write-after-close-failed", "config-handshakes", "config-rotated", "config-resumed", "config-followup-resumption-owed", "config-rotation-inside-ticket-code", "config-client-shared", "config-vhost-handshakes", "config-shared-by-dials", "conn-multi-record-writes", "conn-write-inside-last-flight", "conn-quiet-peer", "conn-concurrent-ekm", "conn-hello-request", "conn-renegotiation-started", "conn-deadline-interrupt", "tasks>=8", "tasks>=16", "porcupine-unknown"}
+var concReach = []string{"block-shared", "pkg-sign", "pkg-encrypt", "pkg-hash", "pkg-sm4", "pkg-parse", "pkg-pkcs7-ber", "pkg-verify-chain", "pkg-sm4-modes", "pkg-key-codec", "pkg-create-cert", "pkg-pkcs12", "pkg-key-exchange", "pkg-system-pool", "pkg-deep-ber", "cache-linearizable", "cache-eviction", "pool-verify", "pool-verify-rejecting", "conn-linearizable", "conn-close-raced", "write-after-close-failed", "config-handshakes", "config-rotated", "config-resumed", "config-followup-resumption-owed", "config-rotation-inside-ticket-code", "config-client-shared", "config-vhost-handshakes", "config-shared-by-dials", "conn-multi-record-writes", "conn-write-inside-last-flight", "conn-quiet-peer", "conn-concurrent-ekm", "conn-hello-request", "conn-renegotiation-started", "conn-deadline-interrupt", "tasks>=8", "tasks>=16", "porcupine-unknown"}
 
 func init() {
 	for i, p := range []struct {
@@ -221,6 +221,8 @@ const (
 	pkCreateCert
 	pkP12
 	pkKeyExchange
+	pkSysPool
+	pkDeepBER
 	pkCount
 )
 
@@ -435,6 +437,41 @@ func doPkgOp(op pkgOp) []byte {
 			return []byte("kxa-err:" + err.Error())
 		}
 		return bytes.Join([][]byte{k1, k2, s1, s2, t1, t2}, []byte{'|'})
+	case pkSysPool:
+		// two pools obtained from SystemCertPool are independent objects: what one
+		// caller adds to its pool is nobody else's trust anchor
+		mine, err := x509.SystemCertPool()
+		if err != nil || mine == nil {
+			mine = x509.NewCertPool()
+		}
+		ca := []string{"caA", "caB"}[op.n%2]
+		leaf := map[string]string{"caA": "srv-sign", "caB": "srvB-sign"}[ca]
+		other := map[string]string{"caA": "srvB-sign", "caB": "srv-sign"}[ca]
+		mine.AddCert(pki.Cert(ca))
+		opts := x509.VerifyOptions{Roots: mine, CurrentTime: simkit.TimeAt(0), KeyUsages: []x509.ExtKeyUsage{x509.ExtKeyUsageAny}}
+		_, e1 := pki.Cert(leaf).Verify(opts)
+		_, e2 := pki.Cert(other).Verify(opts) // issued by the CA this caller never added
+		fresh, err := x509.SystemCertPool()
+		if err != nil || fresh == nil {
+			fresh = x509.NewCertPool()
+		}
+		_, e3 := pki.Cert(leaf).Verify(x509.VerifyOptions{Roots: fresh, CurrentTime: simkit.TimeAt(0), KeyUsages: []x509.ExtKeyUsage{x509.ExtKeyUsageAny}})
+		return []byte(fmt.Sprintf("own=%v|other-ca-rejected=%v|fresh-pool-rejects=%v", e1 == nil, e2 != nil, e3 != nil))
+	case pkDeepBER:
+		// a deeply nested (legal) structure through the BER transcoder in front of ParsePKCS7
+		depth := 60 + op.n*2
+		var b []byte = []byte{0x05, 0x00}
+		for i := 0; i < depth; i++ {
+			hdr := []byte{0x30}
+			if len(b) < 128 {
+				hdr = append(hdr, byte(len(b)))
+			} else {
+				hdr = append(hdr, 0x82, byte(len(b)>>8), byte(len(b)))
+			}
+			b = append(hdr, b...)
+		}
+		_, err := x509.ParsePKCS7(b)
+		return []byte(fmt.Sprintf("%d|%v", depth, err))
 	case pkChain:
 		name := []string{"srv-sign", "srvint-sign", "cli", "srvB-sign"}[op.n%4]
 		cert, err := x509.ParseCertificate(pki.DER(name))
@@ -455,8 +492,8 @@ func boolByte(b bool) byte {
 	return 0
 }
 
-var pkgOpNames = []string{"sm2.Sign/Verify", "sm2.Encrypt/Decrypt", "sm3", "sm4.Sm4Ecb/Sm4Cbc", "x509.ParseCertificate", "x509.ParsePKCS7", "x509.(*Certificate).Verify", "sm4.Sm4CFB/Sm4OFB/Sm4GCM", "x509 key PEM/hex codecs", "x509.CreateCertificate", "pkcs12.Encode/Decode", "sm2.KeyExchangeA/B"}
-var pkgReach = []string{"pkg-sign", "pkg-encrypt", "pkg-hash", "pkg-sm4", "pkg-parse", "pkg-pkcs7-ber", "pkg-verify-chain", "pkg-sm4-modes", "pkg-key-codec", "pkg-create-cert", "pkg-pkcs12", "pkg-key-exchange"}
+var pkgOpNames = []string{"sm2.Sign/Verify", "sm2.Encrypt/Decrypt", "sm3", "sm4.Sm4Ecb/Sm4Cbc", "x509.ParseCertificate", "x509.ParsePKCS7", "x509.(*Certificate).Verify", "sm4.Sm4CFB/Sm4OFB/Sm4GCM", "x509 key PEM/hex codecs", "x509.CreateCertificate", "pkcs12.Encode/Decode", "sm2.KeyExchangeA/B", "x509.SystemCertPool", "x509 BER transcoder (deep nesting)"}
+var pkgReach = []string{"pkg-sign", "pkg-encrypt", "pkg-hash", "pkg-sm4", "pkg-parse", "pkg-pkcs7-ber", "pkg-verify-chain", "pkg-sm4-modes", "pkg-key-codec", "pkg-create-cert", "pkg-pkcs12", "pkg-key-exchange", "pkg-system-pool", "pkg-deep-ber"}
 
 func runConcPkg(c *simkit.Choice, r *simkit.Rec) {
 	pki.Load()
@@ -467,7 +504,7 @@ func runConcPkg(c *simkit.Choice, r *simkit.Rec) {
 	for i := range ops {
 		n := c.Range(1, 2, simkit.LOp)
 		for j := 0; j < n; j++ {
-			k := c.Weighted([]int{2, 2, 3, 3, 2, 3, 1, 2, 1, 1, 1, 1}, simkit.LOp)
+			k := c.Weighted([]int{2, 2, 3, 3, 2, 3, 1, 2, 1, 1, 1, 1, 1, 2}, simkit.LOp)
 			isHeavy := func(k int) bool {
 				return k == pkSign || k == pkEncrypt || k == pkChain || k == pkKeyCodec || k == pkCreateCert || k == pkP12 || k == pkKeyExchange
 			}
@@ -487,7 +524,7 @@ func runConcPkg(c *simkit.Choice, r *simkit.Rec) {
 		// value): restrict it to operations that create all their keys themselves
 		for i := range ops {
 			for j := range ops[i] {
-				if k := ops[i][j].kind; k == pkParse || k == pkP7 || k == pkChain || k == pkCreateCert || k == pkP12 {
+				if k := ops[i][j].kind; k == pkParse || k == pkP7 || k == pkChain || k == pkCreateCert || k == pkP12 || k == pkSysPool {
 					ops[i][j].kind = []int{pkSign, pkEncrypt, pkHash}[k%3]
 				}
 			}
@@ -536,6 +573,10 @@ func runConcPkg(c *simkit.Choice, r *simkit.Rec) {
 	for i := range ops {
 		for j, op := range ops[i] {
 			r.Reach(idx(concReach, pkgReach[op.kind]))
+			if op.kind == pkSysPool && string(got[i][j]) != "own=true|other-ca-rejected=true|fresh-pool-rejects=true" {
+				r.Violate("result-differs", pkgOpNames[op.kind], fmt.Sprintf("task %d: pools obtained from SystemCertPool are not independent of each other: %s", i, got[i][j]))
+				return
+			}
 			if !bytes.Equal(got[i][j], want[i][j]) {
 				r.Violate("result-differs", pkgOpNames[op.kind], fmt.Sprintf("task %d op %d (%s): concurrent result differs from the sequential result of the same call (%d tasks, %d preemptions, fresh curve %v): got %.80x want %.80x", i, j, pkgOpNames[op.kind], nt, s.Preempts, freshCurve, got[i][j], want[i][j]))
 				return
